@@ -78,81 +78,45 @@ Proof.
   intros e He. apply filter_In in He. destruct He as [_ He]. apply N.eqb_eq in He. destruct e as [a b]. cbn [fst snd] in *. subst b. reflexivity.
 Qed.
 
-Section Complete.
-  Variable I : kfdc_inst.
-  Let WI := kfdc_walk I.
-  Let G := c_graph I.
-  Let k := c_k I.
+Section WalkPart.
+  Variable WI : walk_inst.
+  Let G := w_graph WI.
+  Let k := w_k WI.
   Let E := g_edges G.
   Let s := g_src G.
   Let t := g_snk G.
-  Let wm := kfdc_wmax I.
   Variable P : N -> list node.          (* the full walk of layer i: s ... t *)
-  Variable wt : N -> Q.                  (* its weight *)
   Variable ch : N -> N.                  (* the layer chosen to realise subset constraint j *)
+  Variable asg : var -> Q.               (* any assignment whose walk variables are the ones constructed from P *)
   Hypothesis WFS : wf_stg G.
 
   Definition mult (i : N) (e : PathEnc.edge) : Z := multz (pairs (P i)) e.
+  Definition usedq (i : N) (e : PathEnc.edge) : Q := indq (0 <? mult i e)%Z.
 
   Hypothesis HP : forall i, In i (layers k) -> hd_error (P i) = Some s /\ last (P i) s = t /\ incl (pairs (P i)) E.
-  Hypothesis Hw : forall i, In i (layers k) -> (0 <= wt i <= wm)%Q /\ (c_int I = true -> is_int (wt i)).
-  (* the caps of the model *)
+  (* the repetition caps of the model *)
   Hypothesis Hcap : forall i e, In i (layers k) -> In e E -> (inject_Z (mult i e) <= cap WI e)%Q.
-  Hypothesis Hbits : forall i e, In i (layers k) -> In e (kept_edges I) -> prod_kind I e i = 2%N ->
-      (mult i e < 2 ^ Z.of_nat (num_bits (prod_ub I e)))%Z.
-  Hypothesis Hprod : forall i e, In i (layers k) -> In e (kept_edges I) -> (wt i * inject_Z (mult i e) <= wm)%Q.
-  Hypothesis Hflow : forall e, In e (kept_edges I) ->
-      (sumq (fun i => wt i * inject_Z (mult i e)) (layers k) == flow_of I e)%Q.
-
   (* the walks respect the safety fixing of the instance *)
   Hypothesis Hzero : forall e i, In (e, i) (zero_set WI) -> mult i e = 0%Z.
   Hypothesis Hfixed : forall e i m, In (e, i, m) (fix_items WI) ->
-      (is_scc_edge G e = true -> o_geq (c_opts I) = true -> (Z.of_nat m <= mult i e)%Z) /\
+      (is_scc_edge G e = true -> o_geq (w_opts WI) = true -> (Z.of_nat m <= mult i e)%Z) /\
       (is_scc_edge G e = false -> mult i e = 1%Z).
   (* they realise the subset constraints: constraint j by the walk of layer ch j *)
-  Definition usedq (i : N) (e : PathEnc.edge) : Q := indq (0 <? mult i e)%Z.
   Hypothesis Hcov : forall j c, nth_error (all_cons WI) j = Some c ->
       In (ch (N.of_nat j)) (layers k) /\
-      (qnat (length (nodup_e c)) * c_cov I <= sumq (usedq (ch (N.of_nat j))) (nodup_e c))%Q.
-  (* given weights are the weights *)
-  Hypothesis Hgiven : forall ws j w, c_given I = Some ws -> nth_error ws j = Some w -> (wt (N.of_nat j) == w)%Q.
+      (qnat (length (nodup_e c)) * w_cov WI <= sumq (usedq (ch (N.of_nat j))) (nodup_e c))%Q.
+  (* the walk variables of the assignment *)
+  Hypothesis asg_edge' : forall u v i, asg (Edge u v i) = inject_Z (mult i (u, v)).
+  Hypothesis asg_sel' : forall u v i, asg (Sel u v i) = indq (selb (rev (P i)) (u, v)).
+  Hypothesis asg_dist : forall v i, asg (Dist v i) = inject_Z (Z.of_nat (rankf (rev (P i)) v)).
+  Hypothesis asg_used' : forall u v i, asg (Used u v i) = usedq i (u, v).
+  Hypothesis asg_r : forall i j, asg (R i j) = indq (i =? ch j)%N.
 
   Let WF : wf_graph G := wfs_graph G WFS.
 
-  Definition keptb (e : PathEnc.edge) : bool := mem_edge e (kept_edges I).
-  Definition bitsof (i : N) (e : PathEnc.edge) : list Q := bits (num_bits (prod_ub I e)) (mult i e).
-
-  Definition asg (x : var) : Q :=
-    match vidx x with
-    | [u; v; i] =>
-        if (vfam x =? fEdge)%N then inject_Z (mult i (u, v))
-        else if (vfam x =? fSel)%N then indq (selb (rev (P i)) (u, v))
-        else if (vfam x =? fPi)%N then (if keptb (u, v) then wt i * inject_Z (mult i (u, v)) else 0)%Q
-        else if (vfam x =? fUsed)%N then usedq i (u, v)
-        else 0%Q
-    | [v; i] => if (vfam x =? fDist)%N then inject_Z (Z.of_nat (rankf (rev (P i)) v))
-                else if (vfam x =? fR)%N then indq (v =? ch i)%N else 0%Q
-    | [i] => if (vfam x =? fW)%N then wt i else 0%Q
-    | [f; u; v; i; j] =>
-        if ((vfam x =? fBit)%N && (f =? fPi)%N)%bool then nth (N.to_nat j) (bitsof i (u, v)) 0%Q
-        else if ((vfam x =? fComp)%N && (f =? fPi)%N)%bool then (nth (N.to_nat j) (bitsof i (u, v)) 0 * wt i)%Q
-        else 0%Q
-    | _ => 0%Q
-    end.
-
-  Lemma asg_edge e i : asg (evar e i) = inject_Z (mult i e). Proof. destruct e; reflexivity. Qed.
-  Lemma asg_edge' u v i : asg (Edge u v i) = inject_Z (mult i (u, v)). Proof. reflexivity. Qed.
-  Lemma asg_sel e i : asg (svar e i) = indq (selb (rev (P i)) e). Proof. destruct e; reflexivity. Qed.
-  Lemma asg_sel' u v i : asg (Sel u v i) = indq (selb (rev (P i)) (u, v)). Proof. reflexivity. Qed.
-  Lemma asg_dist v i : asg (Dist v i) = inject_Z (Z.of_nat (rankf (rev (P i)) v)). Proof. reflexivity. Qed.
-  Lemma asg_w i : asg (W i) = wt i. Proof. reflexivity. Qed.
-  Lemma asg_used e i : asg (uvar e i) = usedq i e. Proof. destruct e; reflexivity. Qed.
-  Lemma asg_r i j : asg (R i j) = indq (i =? ch j)%N. Proof. reflexivity. Qed.
-  Lemma asg_pi e i : asg (pvar e i) = (if keptb e then wt i * inject_Z (mult i e) else 0)%Q. Proof. destruct e; reflexivity. Qed.
-  Lemma asg_bit e i j : asg (Bit (pvar e i) (N.of_nat j)) = nth j (bitsof i e) 0%Q.
-  Proof. destruct e. unfold asg, Bit, pvar, Pi. cbn [vidx vfam app]. cbn. rewrite Nat2N.id. reflexivity. Qed.
-  Lemma asg_comp e i j : asg (Comp (pvar e i) (N.of_nat j)) = (nth j (bitsof i e) 0 * wt i)%Q.
-  Proof. destruct e. unfold asg, Comp, pvar, Pi. cbn [vidx vfam app]. cbn. rewrite Nat2N.id. reflexivity. Qed.
+  Lemma asg_edge e i : asg (evar e i) = inject_Z (mult i e). Proof. destruct e; apply asg_edge'. Qed.
+  Lemma asg_sel e i : asg (svar e i) = indq (selb (rev (P i)) e). Proof. destruct e; apply asg_sel'. Qed.
+  Lemma asg_used e i : asg (uvar e i) = usedq i e. Proof. destruct e; apply asg_used'. Qed.
 
   (* ---- facts about the walks ---- *)
   Lemma mult_nonneg i e : (0 <= mult i e)%Z. Proof. unfold mult, multz. lia. Qed.
@@ -176,7 +140,7 @@ Section Complete.
   Proof. intros Hi. destruct (HP i Hi) as (_ & _ & Hin). apply (sum_mult_filter E _ _ (wf_nodup_e G WF) Hin). Qed.
 
   Lemma edge_sum_q i l : (sumq (fun e => asg (Edge (fst e) (snd e) i)) l == inject_Z (WalkEnc.sumf (mult i) l))%Q.
-  Proof. apply sumq_inj. intros e _. destruct e. reflexivity. Qed.
+  Proof. apply sumq_inj. intros e _. destruct e. cbn [fst snd]. rewrite asg_edge'. reflexivity. Qed.
 
   Lemma pairs_no_in_s i e : In i (layers k) -> In e (pairs (P i)) -> snd e <> s.
   Proof. intros Hi He. destruct (HP i Hi) as (_ & _ & Hin). apply (wf_src G WF e (Hin e He)). Qed.
@@ -184,7 +148,7 @@ Section Complete.
   Proof. intros Hi He. destruct (HP i Hi) as (_ & _ & Hin). apply (wf_snk G WF e (Hin e He)). Qed.
 
   (* ---- the walk rows ---- *)
-  Lemma row_17a_sat i : In i (layers k) -> sat_row asg (row_17a G (o_allow_empty (c_opts I)) i).
+  Lemma row_17a_sat i : In i (layers k) -> sat_row asg (row_17a G (o_allow_empty (w_opts WI)) i).
   Proof.
     intros Hi.
     assert (X : (eval asg (map (fun v => (Edge (g_src G) v i, 1%Q)) (succs G (g_src G))) == 1)%Q).
@@ -194,7 +158,7 @@ Section Complete.
       rewrite (outd_s_one s t r (PathEncProofs.wf_st G WF) Hl).
       - reflexivity.
       - intros e He. rewrite <- Er in He. apply (pairs_no_in_s i e Hi He). }
-    unfold sat_row, row_17a, mkrow. destruct (o_allow_empty (c_opts I)); cbn [sns lhs rhs]; rewrite X; lra.
+    unfold sat_row, row_17a, mkrow. destruct (o_allow_empty (w_opts WI)); cbn [sns lhs rhs]; rewrite X; lra.
   Qed.
 
   Lemma row_17b_sat i v : In i (layers k) -> In v (inner G) -> sat_row asg (row_17b G i v).
@@ -235,7 +199,7 @@ Section Complete.
   Qed.
 
   Lemma sel_sum_q i l : (sumq (fun e => asg (Sel (fst e) (snd e) i)) l == sumq (fun e => indq (selb (rev (P i)) e)) l)%Q.
-  Proof. apply sumq_ext. intros [a b] _. reflexivity. Qed.
+  Proof. apply sumq_ext. intros [a b] _. cbn [fst snd]. rewrite asg_sel'. reflexivity. Qed.
 
   Lemma cap_nonneg i e : In i (layers k) -> In e E -> (0 <= cap WI e)%Q.
   Proof.
@@ -247,10 +211,10 @@ Section Complete.
   Proof.
     intros Hi Hv. unfold non_src in Hv. apply filter_In in Hv. destruct Hv as [Hvn Hv]. apply negb_true_iff in Hv. apply N.eqb_neq in Hv.
     unfold sat_row, row_22a, mkrow. cbn [sns lhs rhs]. rewrite eval_app.
-    change (w_graph WI) with G.
+    fold G.
     rewrite (eval_in_terms G WF asg (fun u w => Edge u w i) 1%Q v), (eval_in_terms G WF asg (fun u w => Sel u w i) (- Mv WI v)%Q v). cbv beta.
     rewrite (edge_sum_q i), (sel_sum_q i). fold E.
-    rewrite (Mv_sum WI v WF). change (g_edges (w_graph WI)) with E.
+    rewrite (Mv_sum WI v WF). fold G E.
     assert (Hcaps : (0 <= sumq (cap WI) (WalkEnc.ins E v))%Q).
     { apply wsumq_nonneg. intros e He. apply ins_spec in He. apply (cap_nonneg i e Hi (proj1 He)). }
     assert (Hsel0 : (0 <= sumq (fun e => indq (selb (rev (P i)) e)) (WalkEnc.ins E v))%Q) by (apply wsumq_nonneg; intros e _; apply indq_nonneg).
@@ -319,7 +283,7 @@ Section Complete.
 
   Lemma walk_rows_sat : Forall (sat_row asg) (walk_rows WI).
   Proof.
-    unfold walk_rows. change (w_graph WI) with G. change (w_k WI) with k. change (w_opts WI) with (c_opts I).
+    unfold walk_rows. fold G k.
     repeat rewrite Forall_app. repeat split.
     - apply Forall_forall. intros r Hr. apply in_map_iff in Hr. destruct Hr as (i & <- & Hi). apply row_17a_sat. exact Hi.
     - apply Forall_flat_map. intros i Hi. apply Forall_forall. intros r Hr. apply in_map_iff in Hr. destruct Hr as (v & <- & Hv). apply row_17b_sat; assumption.
@@ -337,9 +301,9 @@ Section Complete.
     destruct (find (fun x => edge_eqb (fst (fst x)) e && (snd (fst x) =? i)%N) (fix_items WI)) as [[[e' i'] m]|] eqn:F; [|exact M0].
     apply find_some in F. destruct F as [Hin F]. cbn [fst snd] in F. apply andb_true_iff in F. destruct F as [F1 F2].
     apply edge_eqb_eq in F1. apply N.eqb_eq in F2. subst e' i'. destruct (Hfixed e i m Hin) as [A B].
-    change (w_graph WI) with G. change (w_opts WI) with (c_opts I).
+    fold G.
     destruct (is_scc_edge G e) eqn:S.
-    - destruct (o_geq (c_opts I)) eqn:Gq; [|exact M0]. unfold qnat. rewrite <- Zle_Qle. apply A; reflexivity.
+    - destruct (o_geq (w_opts WI)) eqn:Gq; [|exact M0]. unfold qnat. rewrite <- Zle_Qle. apply A; reflexivity.
     - rewrite (B eq_refl). change (inject_Z 1) with 1%Q. lra.
   Qed.
 
@@ -352,9 +316,9 @@ Section Complete.
   Lemma fix_rows_sat : Forall (sat_row asg) (fix_rows WI).
   Proof.
     unfold fix_rows. destruct (o_bounds (w_opts WI)); [constructor|]. apply Forall_flat_map. intros [[e i] m] Hin.
-    destruct (Hfixed e i m Hin) as [A B]. change (w_graph WI) with G. change (w_opts WI) with (c_opts I).
+    destruct (Hfixed e i m Hin) as [A B]. fold G.
     destruct (is_scc_edge G e) eqn:S.
-    - destruct (o_geq (c_opts I)) eqn:Gq; [|constructor]. constructor; [|constructor].
+    - destruct (o_geq (w_opts WI)) eqn:Gq; [|constructor]. constructor; [|constructor].
       unfold sat_row, mkrow. cbn [sns lhs rhs eval fst snd]. rewrite asg_edge.
       assert (qnat m <= inject_Z (mult i e))%Q by (unfold qnat; rewrite <- Zle_Qle; apply A; reflexivity). lra.
     - constructor; [|constructor]. unfold sat_row, mkrow. cbn [sns lhs rhs eval fst snd]. rewrite asg_edge, (B eq_refl).
@@ -371,7 +335,7 @@ Section Complete.
   (* ---- columns ---- *)
   Lemma walk_cols_sat : Forall (sat_col asg) (walk_cols WI).
   Proof.
-    unfold walk_cols. change (w_graph WI) with G. change (w_k WI) with k. repeat rewrite Forall_app. repeat split.
+    unfold walk_cols. fold G k. repeat rewrite Forall_app. repeat split.
     - apply Forall_flat_map. intros i Hi. apply Forall_forall. intros c Hc. apply in_map_iff in Hc. destruct Hc as (e & <- & He).
       unfold sat_col, intcol. cbn [cvar clb cub cint]. rewrite asg_edge. split; [|split].
       + apply edge_lb_le.
@@ -384,88 +348,6 @@ Section Complete.
       + intros _. apply is_int_inject.
     - apply Forall_flat_map. intros i Hi. apply Forall_forall. intros c Hc. apply in_map_iff in Hc. destruct Hc as (e & <- & He).
       apply col_of_bin. rewrite asg_sel. apply indq_bin.
-  Qed.
-
-  Lemma wm_nonneg i : In i (layers k) -> (0 <= wm)%Q.
-  Proof. intros Hi. destruct (Hw i Hi) as [[A B] _]. lra. Qed.
-
-  Lemma keptb_true e : In e (kept_edges I) -> keptb e = true.
-  Proof. intros H. unfold keptb. apply mem_edge_In. exact H. Qed.
-
-  Lemma pi_col_sat i e : In i (layers k) -> sat_col asg (wcol_ (pvar e i) wm (c_int I)).
-  Proof.
-    intros Hi. unfold sat_col, wcol_. cbn [cvar clb cub cint]. rewrite asg_pi. destruct (Hw i Hi) as [[W0 W1] Wi].
-    assert (M0 : (0 <= inject_Z (mult i e))%Q) by (change 0%Q with (inject_Z 0); rewrite <- Zle_Qle; apply mult_nonneg).
-    destruct (keptb e) eqn:K.
-    - apply mem_edge_In in K. split; [nra|]. split; [apply (Hprod i e Hi K)|].
-      intros Hint. apply is_int_mult; [apply Wi; exact Hint|apply is_int_inject].
-    - split; [lra|]. split; [apply (wm_nonneg i Hi)|]. intros _. exists 0%Z. reflexivity.
-  Qed.
-
-  (* the bit expansion block of one (edge, layer) pair *)
-  Lemma prod_block_sat i e : In i (layers k) -> In e (kept_edges I) -> prod_kind I e i = 2%N ->
-    Forall (sat_col asg) (intprod_cols (pvar e i) 0%Q (prod_ub I e) (num_bits (prod_ub I e))) /\
-    Forall (sat_row asg) (intprod_rows (evar e i) (W i) (pvar e i) 0%Q (prod_ub I e) (num_bits (prod_ub I e))).
-  Proof.
-    intros Hi He Hk2. set (n := num_bits (prod_ub I e)). set (ub := prod_ub I e).
-    apply (intprod_rows_sem (evar e i) (W i) (pvar e i) 0%Q ub n ltac:(split; discriminate) ltac:(split; discriminate) ltac:(split; discriminate) asg).
-    cbn zeta.
-    destruct (bits_spec n (mult i e) (conj (mult_nonneg i e) (Hbits i e Hi He Hk2))) as (BL & BB & BV).
-    destruct (Hw i Hi) as [[W0 W1] _].
-    assert (Wub : (wt i <= ub)%Q).
-    { unfold ub, prod_ub. destruct (c_scale_free I); [|exact W1]. pose proof (qmax_ge_l (kfdc_wmax I) (cap (kfdc_walk I) e)) as Hq. unfold wm in W1. lra. }
-    assert (Ebs : map (fun j => asg (Bit (pvar e i) (N.of_nat j))) (seq 0 n) = bits n (mult i e)).
-    { rewrite <- BL at 1. apply map_seq_nth. intros j _. cbn [plus]. rewrite asg_bit. reflexivity. }
-    assert (Ems : map (fun j => asg (Comp (pvar e i) (N.of_nat j))) (seq 0 n) = map (fun b => (b * wt i)%Q) (bits n (mult i e))).
-    { rewrite <- Ebs. rewrite map_map. apply map_ext. intros j. rewrite asg_comp, asg_bit. reflexivity. }
-    rewrite Ebs, Ems.
-    assert (HF : Forall2 (fun b m => (0 <= m <= ub)%Q /\ mcc b (asg (W i)) m 0%Q ub) (bits n (mult i e)) (map (fun b => (b * wt i)%Q) (bits n (mult i e)))).
-    { clear Ebs Ems BL BV. induction BB as [|b bs Hb _ IH]; cbn [map]; constructor; [|exact IH].
-      rewrite asg_w. split.
-      - destruct Hb as [Hb|Hb]; rewrite Hb; split; lra.
-      - apply (mcc_exact b (wt i) (b * wt i)%Q 0%Q ub Hb); [split; lra|reflexivity]. }
-    split; [exact BB|]. split; [exact HF|]. split.
-    - rewrite BV, asg_edge. reflexivity.
-    - pose proof (comps_value (asg (W i)) 0%Q ub ltac:(rewrite asg_w; split; lra) _ _ BB HF) as V.
-      rewrite V, BV, asg_w, asg_pi, (keptb_true e He). reflexivity.
-  Qed.
-
-  Lemma kfdc_cols_sat_c : Forall (sat_col asg) (kfdc_cols I).
-  Proof.
-    unfold kfdc_cols. fold G k wm. repeat rewrite Forall_app. repeat split.
-    - apply Forall_flat_map. intros i Hi. apply Forall_forall. intros c Hc. apply in_map_iff in Hc. destruct Hc as (e & <- & _). apply pi_col_sat. exact Hi.
-    - apply Forall_forall. intros c Hc. apply in_map_iff in Hc. destruct Hc as (i & <- & Hi).
-      unfold sat_col, wcol_. cbn [cvar clb cub cint]. rewrite asg_w. destruct (Hw i Hi) as [[A B] C]. repeat split; assumption.
-    - apply Forall_flat_map. intros e He. apply Forall_flat_map. intros i Hi.
-      destruct (N.eqb_spec (prod_kind I e i) 2%N) as [K2|_]; [apply (prod_block_sat i e Hi He K2)|constructor].
-  Qed.
-
-  Lemma given_rows_sat : Forall (sat_row asg) (kfdc_given_rows I).
-  Proof.
-    unfold kfdc_given_rows. destruct (c_given I) as [ws|] eqn:Gv; [|constructor].
-    assert (X : forall l n, (forall j w, nth_error l j = Some w -> (wt (N.of_nat (n + j)) == w)%Q) ->
-                Forall (sat_row asg) (map (fun iw => mkrow [(W (fst iw), 1%Q)] SEq (snd iw)) (zipn n l))).
-    { induction l as [|w l IH]; intros n H; cbn [zipn map]; constructor.
-      - unfold sat_row, mkrow. cbn [sns lhs rhs eval fst snd]. rewrite asg_w. pose proof (H 0%nat w eq_refl) as E0. rewrite Nat.add_0_r in E0. rewrite E0. lra.
-      - apply IH. intros j w' Hj. replace (S n + j)%nat with (n + S j)%nat by lia. apply H. exact Hj. }
-    apply X. intros j w Hj. cbn [plus]. apply (Hgiven ws j w eq_refl Hj).
-  Qed.
-
-  Lemma kfdc_rows_sat_c : Forall (sat_row asg) (kfdc_rows I).
-  Proof.
-    unfold kfdc_rows. rewrite Forall_app. split; [|apply given_rows_sat]. apply Forall_flat_map. intros e He.
-    unfold kfdc_edge_rows. fold k. rewrite Forall_app. split.
-    - apply Forall_flat_map. intros i Hi. unfold kfdc_prod_rows, prod_kind. fold WI.
-      destruct (mem_ei e i (zero_set WI)) eqn:Z0.
-      + cbn. constructor; [|constructor]. unfold sat_row, mkrow. cbn [sns lhs rhs eval fst snd].
-        apply mem_ei_In in Z0. rewrite asg_pi, (keptb_true e He), (Hzero e i Z0). change (inject_Z 0) with 0%Q. lra.
-      + destruct (mem_ei e i (one_set WI)) eqn:O1.
-        * cbn. constructor; [|constructor]. unfold sat_row, mkrow. cbn [sns lhs rhs eval fst snd].
-          apply mem_ei_In in O1. rewrite asg_pi, asg_w, (keptb_true e He), (one_set_mult e i O1). change (inject_Z 1) with 1%Q. lra.
-        * cbn. apply (prod_block_sat i e Hi He). unfold prod_kind. fold WI. rewrite Z0, O1. reflexivity.
-    - constructor; [|constructor]. unfold sat_row, mkrow. cbn [sns lhs rhs].
-      rewrite (eval_map_const asg (fun i => pvar e i) 1%Q), <- (Hflow e He), Qmult_1_l.
-      apply sumq_ext. intros i _. rewrite asg_pi, (keptb_true e He). reflexivity.
   Qed.
 
   (* ---- subset constraints ---- *)
@@ -490,7 +372,7 @@ Section Complete.
   Lemma sub_rows_sat : Forall (sat_row asg) (sub_rows WI).
   Proof.
     unfold sub_rows. destruct (all_cons WI) as [|c0 cs] eqn:AC; [constructor|]. rewrite <- AC in *. clear AC c0 cs.
-    change (w_graph WI) with G. change (w_k WI) with k. repeat rewrite Forall_app. repeat split.
+    fold G k. repeat rewrite Forall_app. repeat split.
     - apply Forall_flat_map. intros i Hi. apply Forall_flat_map. intros e He.
       assert (M0 := mult_nonneg i e). constructor; [|constructor; [|constructor]].
       + unfold sat_row, row_min1a, mkrow. cbn [sns lhs rhs eval fst snd]. rewrite asg_used, asg_edge. unfold usedq.
@@ -506,7 +388,7 @@ Section Complete.
       unfold sat_row, row_s7a, mkrow. cbn [sns lhs rhs fst snd]. rewrite eval_app.
       rewrite (eval_map_const asg (fun e => uvar e i) 1%Q). cbn [eval fst snd]. rewrite asg_r.
       assert (U : (sumq (fun e => asg (uvar e i)) (nodup_e c) == sumq (usedq i) (nodup_e c))%Q) by (apply sumq_ext; intros e _; rewrite asg_used; reflexivity).
-      rewrite U. change (w_cov WI) with (c_cov I).
+      rewrite U.
       destruct (N.eqb_spec i (ch (N.of_nat j))) as [->|_]; cbn [indq].
       + lra.
       + assert (0 <= sumq (usedq i) (nodup_e c))%Q by (apply wsumq_nonneg; intros e _; apply indq_nonneg). lra.
@@ -520,11 +402,187 @@ Section Complete.
   Qed.
 
   (* C04 (cyclic), completeness: the walks with their weights satisfy the LP *)
+  (* everything create_solver_and_walks() puts into the solver is satisfied *)
+  Theorem base_sat : Forall (sat_col asg) (base_wcols WI) /\ Forall (sat_row asg) (base_wrows WI).
+  Proof.
+    split.
+    - unfold base_wcols. rewrite Forall_app. split; [apply walk_cols_sat|apply sub_cols_sat].
+    - unfold base_wrows. repeat rewrite Forall_app. repeat split; [apply walk_rows_sat|apply zero_rows_sat|apply fix_rows_sat|apply sub_rows_sat].
+  Qed.
+End WalkPart.
+
+Section Complete.
+  Variable I : kfdc_inst.
+  Let WI := kfdc_walk I.
+  Let G := c_graph I.
+  Let k := c_k I.
+  Let E := g_edges G.
+  Let s := g_src G.
+  Let t := g_snk G.
+  Let wm := kfdc_wmax I.
+  Variable P : N -> list node.          (* the full walk of layer i: s ... t *)
+  Variable wt : N -> Q.                  (* its weight *)
+  Variable ch : N -> N.                  (* the layer chosen to realise subset constraint j *)
+  Hypothesis WFS : wf_stg G.
+
+  Notation mult := (mult P).
+  Notation usedq := (usedq P).
+
+  Hypothesis HP : forall i, In i (layers k) -> hd_error (P i) = Some s /\ last (P i) s = t /\ incl (pairs (P i)) E.
+  Hypothesis Hw : forall i, In i (layers k) -> (0 <= wt i <= wm)%Q /\ (c_int I = true -> is_int (wt i)).
+  (* the caps of the model *)
+  Hypothesis Hcap : forall i e, In i (layers k) -> In e E -> (inject_Z (mult i e) <= cap WI e)%Q.
+  Hypothesis Hbits : forall i e, In i (layers k) -> In e (kept_edges I) -> prod_kind I e i = 2%N ->
+      (mult i e < 2 ^ Z.of_nat (num_bits (prod_ub I e)))%Z.
+  Hypothesis Hprod : forall i e, In i (layers k) -> In e (kept_edges I) -> (wt i * inject_Z (mult i e) <= wm)%Q.
+  Hypothesis Hflow : forall e, In e (kept_edges I) ->
+      (sumq (fun i => wt i * inject_Z (mult i e)) (layers k) == flow_of I e)%Q.
+  (* the walks respect the safety fixing of the instance *)
+  Hypothesis Hzero : forall e i, In (e, i) (zero_set WI) -> mult i e = 0%Z.
+  Hypothesis Hfixed : forall e i m, In (e, i, m) (fix_items WI) ->
+      (is_scc_edge G e = true -> o_geq (c_opts I) = true -> (Z.of_nat m <= mult i e)%Z) /\
+      (is_scc_edge G e = false -> mult i e = 1%Z).
+  (* they realise the subset constraints: constraint j by the walk of layer ch j *)
+  Hypothesis Hcov : forall j c, nth_error (all_cons WI) j = Some c ->
+      In (ch (N.of_nat j)) (layers k) /\
+      (qnat (length (nodup_e c)) * c_cov I <= sumq (usedq (ch (N.of_nat j))) (nodup_e c))%Q.
+  (* given weights are the weights *)
+  Hypothesis Hgiven : forall ws j w, c_given I = Some ws -> nth_error ws j = Some w -> (wt (N.of_nat j) == w)%Q.
+
+  Definition keptb (e : PathEnc.edge) : bool := mem_edge e (kept_edges I).
+  Definition bitsof (i : N) (e : PathEnc.edge) : list Q := bits (num_bits (prod_ub I e)) (mult i e).
+
+  Definition asg (x : var) : Q :=
+    match vidx x with
+    | [u; v; i] =>
+        if (vfam x =? fEdge)%N then inject_Z (mult i (u, v))
+        else if (vfam x =? fSel)%N then indq (selb (rev (P i)) (u, v))
+        else if (vfam x =? fPi)%N then (if keptb (u, v) then wt i * inject_Z (mult i (u, v)) else 0)%Q
+        else if (vfam x =? fUsed)%N then usedq i (u, v)
+        else 0%Q
+    | [v; i] => if (vfam x =? fDist)%N then inject_Z (Z.of_nat (rankf (rev (P i)) v))
+                else if (vfam x =? fR)%N then indq (v =? ch i)%N else 0%Q
+    | [i] => if (vfam x =? fW)%N then wt i else 0%Q
+    | [f; u; v; i; j] =>
+        if ((vfam x =? fBit)%N && (f =? fPi)%N)%bool then nth (N.to_nat j) (bitsof i (u, v)) 0%Q
+        else if ((vfam x =? fComp)%N && (f =? fPi)%N)%bool then (nth (N.to_nat j) (bitsof i (u, v)) 0 * wt i)%Q
+        else 0%Q
+    | _ => 0%Q
+    end.
+
+  Lemma kasg_edge e i : asg (evar e i) = inject_Z (mult i e). Proof. destruct e; reflexivity. Qed.
+  Lemma kasg_edge' u v i : asg (Edge u v i) = inject_Z (mult i (u, v)). Proof. reflexivity. Qed.
+  Lemma kasg_sel e i : asg (svar e i) = indq (selb (rev (P i)) e). Proof. destruct e; reflexivity. Qed.
+  Lemma kasg_sel' u v i : asg (Sel u v i) = indq (selb (rev (P i)) (u, v)). Proof. reflexivity. Qed.
+  Lemma kasg_dist v i : asg (Dist v i) = inject_Z (Z.of_nat (rankf (rev (P i)) v)). Proof. reflexivity. Qed.
+  Lemma kasg_w i : asg (W i) = wt i. Proof. reflexivity. Qed.
+  Lemma kasg_used e i : asg (uvar e i) = usedq i e. Proof. destruct e; reflexivity. Qed.
+  Lemma kasg_r i j : asg (R i j) = indq (i =? ch j)%N. Proof. reflexivity. Qed.
+  Lemma kasg_pi e i : asg (pvar e i) = (if keptb e then wt i * inject_Z (mult i e) else 0)%Q. Proof. destruct e; reflexivity. Qed.
+  Lemma kasg_bit e i j : asg (Bit (pvar e i) (N.of_nat j)) = nth j (bitsof i e) 0%Q.
+  Proof. destruct e. unfold asg, Bit, pvar, Pi. cbn [vidx vfam app]. cbn. rewrite Nat2N.id. reflexivity. Qed.
+  Lemma kasg_comp e i j : asg (Comp (pvar e i) (N.of_nat j)) = (nth j (bitsof i e) 0 * wt i)%Q.
+  Proof. destruct e. unfold asg, Comp, pvar, Pi. cbn [vidx vfam app]. cbn. rewrite Nat2N.id. reflexivity. Qed.
+
+  Lemma kmult_nonneg i e : (0 <= mult i e)%Z. Proof. unfold WalkEncComplete.mult, multz. lia. Qed.
+
+  Lemma one_set_mult' e i : In (e, i) (one_set WI) -> mult i e = 1%Z.
+  Proof.
+    unfold one_set. intros H. apply in_map_iff in H. destruct H as ([[e' i'] m] & Eq & H). cbn [fst] in Eq. injection Eq as -> ->.
+    apply filter_In in H. destruct H as [Hin S]. cbn [fst] in S. apply negb_true_iff in S.
+    apply (proj2 (Hfixed e i m Hin)). exact S.
+  Qed.
+
+  Lemma kfdc_base_sat : Forall (sat_col asg) (base_wcols WI) /\ Forall (sat_row asg) (base_wrows WI).
+  Proof. apply (base_sat WI P ch asg WFS HP Hcap Hzero Hfixed Hcov); reflexivity. Qed.
+
+  Lemma wm_nonneg i : In i (layers k) -> (0 <= wm)%Q.
+  Proof. intros Hi. destruct (Hw i Hi) as [[A B] _]. lra. Qed.
+
+  Lemma keptb_true e : In e (kept_edges I) -> keptb e = true.
+  Proof. intros H. unfold keptb. apply mem_edge_In. exact H. Qed.
+
+  Lemma pi_col_sat i e : In i (layers k) -> sat_col asg (wcol_ (pvar e i) wm (c_int I)).
+  Proof.
+    intros Hi. unfold sat_col, wcol_. cbn [cvar clb cub cint]. rewrite kasg_pi. destruct (Hw i Hi) as [[W0 W1] Wi].
+    assert (M0 : (0 <= inject_Z (mult i e))%Q) by (change 0%Q with (inject_Z 0); rewrite <- Zle_Qle; apply kmult_nonneg).
+    destruct (keptb e) eqn:K.
+    - apply mem_edge_In in K. split; [nra|]. split; [apply (Hprod i e Hi K)|].
+      intros Hint. apply is_int_mult; [apply Wi; exact Hint|apply is_int_inject].
+    - split; [lra|]. split; [apply (wm_nonneg i Hi)|]. intros _. exists 0%Z. reflexivity.
+  Qed.
+
+  (* the bit expansion block of one (edge, layer) pair *)
+  Lemma prod_block_sat i e : In i (layers k) -> In e (kept_edges I) -> prod_kind I e i = 2%N ->
+    Forall (sat_col asg) (intprod_cols (pvar e i) 0%Q (prod_ub I e) (num_bits (prod_ub I e))) /\
+    Forall (sat_row asg) (intprod_rows (evar e i) (W i) (pvar e i) 0%Q (prod_ub I e) (num_bits (prod_ub I e))).
+  Proof.
+    intros Hi He Hk2. set (n := num_bits (prod_ub I e)). set (ub := prod_ub I e).
+    apply (intprod_rows_sem (evar e i) (W i) (pvar e i) 0%Q ub n ltac:(split; discriminate) ltac:(split; discriminate) ltac:(split; discriminate) asg).
+    cbn zeta.
+    destruct (bits_spec n (mult i e) (conj (kmult_nonneg i e) (Hbits i e Hi He Hk2))) as (BL & BB & BV).
+    destruct (Hw i Hi) as [[W0 W1] _].
+    assert (Wub : (wt i <= ub)%Q).
+    { unfold ub, prod_ub. destruct (c_scale_free I); [|exact W1]. pose proof (qmax_ge_l (kfdc_wmax I) (cap (kfdc_walk I) e)) as Hq. unfold wm in W1. lra. }
+    assert (Ebs : map (fun j => asg (Bit (pvar e i) (N.of_nat j))) (seq 0 n) = bits n (mult i e)).
+    { rewrite <- BL at 1. apply map_seq_nth. intros j _. cbn [plus]. rewrite kasg_bit. reflexivity. }
+    assert (Ems : map (fun j => asg (Comp (pvar e i) (N.of_nat j))) (seq 0 n) = map (fun b => (b * wt i)%Q) (bits n (mult i e))).
+    { rewrite <- Ebs. rewrite map_map. apply map_ext. intros j. rewrite kasg_comp, kasg_bit. reflexivity. }
+    rewrite Ebs, Ems.
+    assert (HF : Forall2 (fun b m => (0 <= m <= ub)%Q /\ mcc b (asg (W i)) m 0%Q ub) (bits n (mult i e)) (map (fun b => (b * wt i)%Q) (bits n (mult i e)))).
+    { clear Ebs Ems BL BV. induction BB as [|b bs Hb _ IH]; cbn [map]; constructor; [|exact IH].
+      rewrite kasg_w. split.
+      - destruct Hb as [Hb|Hb]; rewrite Hb; split; lra.
+      - apply (mcc_exact b (wt i) (b * wt i)%Q 0%Q ub Hb); [split; lra|reflexivity]. }
+    split; [exact BB|]. split; [exact HF|]. split.
+    - rewrite BV, kasg_edge. reflexivity.
+    - pose proof (comps_value (asg (W i)) 0%Q ub ltac:(rewrite kasg_w; split; lra) _ _ BB HF) as V.
+      rewrite V, BV, kasg_w, kasg_pi, (keptb_true e He). reflexivity.
+  Qed.
+
+  Lemma kfdc_cols_sat_c : Forall (sat_col asg) (kfdc_cols I).
+  Proof.
+    unfold kfdc_cols. fold G k wm. repeat rewrite Forall_app. repeat split.
+    - apply Forall_flat_map. intros i Hi. apply Forall_forall. intros c Hc. apply in_map_iff in Hc. destruct Hc as (e & <- & _). apply pi_col_sat. exact Hi.
+    - apply Forall_forall. intros c Hc. apply in_map_iff in Hc. destruct Hc as (i & <- & Hi).
+      unfold sat_col, wcol_. cbn [cvar clb cub cint]. rewrite kasg_w. destruct (Hw i Hi) as [[A B] C]. repeat split; assumption.
+    - apply Forall_flat_map. intros e He. apply Forall_flat_map. intros i Hi.
+      destruct (N.eqb_spec (prod_kind I e i) 2%N) as [K2|_]; [apply (prod_block_sat i e Hi He K2)|constructor].
+  Qed.
+
+  Lemma given_rows_sat : Forall (sat_row asg) (kfdc_given_rows I).
+  Proof.
+    unfold kfdc_given_rows. destruct (c_given I) as [ws|] eqn:Gv; [|constructor].
+    assert (X : forall l n, (forall j w, nth_error l j = Some w -> (wt (N.of_nat (n + j)) == w)%Q) ->
+                Forall (sat_row asg) (map (fun iw => mkrow [(W (fst iw), 1%Q)] SEq (snd iw)) (zipn n l))).
+    { induction l as [|w l IH]; intros n H; cbn [zipn map]; constructor.
+      - unfold sat_row, mkrow. cbn [sns lhs rhs eval fst snd]. rewrite kasg_w. pose proof (H 0%nat w eq_refl) as E0. rewrite Nat.add_0_r in E0. rewrite E0. lra.
+      - apply IH. intros j w' Hj. replace (S n + j)%nat with (n + S j)%nat by lia. apply H. exact Hj. }
+    apply X. intros j w Hj. cbn [plus]. apply (Hgiven ws j w eq_refl Hj).
+  Qed.
+
+  Lemma kfdc_rows_sat_c : Forall (sat_row asg) (kfdc_rows I).
+  Proof.
+    unfold kfdc_rows. rewrite Forall_app. split; [|apply given_rows_sat]. apply Forall_flat_map. intros e He.
+    unfold kfdc_edge_rows. fold k. rewrite Forall_app. split.
+    - apply Forall_flat_map. intros i Hi. unfold kfdc_prod_rows, prod_kind. fold WI.
+      destruct (mem_ei e i (zero_set WI)) eqn:Z0.
+      + cbn. constructor; [|constructor]. unfold sat_row, mkrow. cbn [sns lhs rhs eval fst snd].
+        apply mem_ei_In in Z0. rewrite kasg_pi, (keptb_true e He), (Hzero e i Z0). change (inject_Z 0) with 0%Q. lra.
+      + destruct (mem_ei e i (one_set WI)) eqn:O1.
+        * cbn. constructor; [|constructor]. unfold sat_row, mkrow. cbn [sns lhs rhs eval fst snd].
+          apply mem_ei_In in O1. rewrite kasg_pi, kasg_w, (keptb_true e He), (one_set_mult' e i O1). change (inject_Z 1) with 1%Q. lra.
+        * cbn. apply (prod_block_sat i e Hi He). unfold prod_kind. fold WI. rewrite Z0, O1. reflexivity.
+    - constructor; [|constructor]. unfold sat_row, mkrow. cbn [sns lhs rhs].
+      rewrite (eval_map_const asg (fun i => pvar e i) 1%Q), <- (Hflow e He), Qmult_1_l.
+      apply sumq_ext. intros i _. rewrite kasg_pi, (keptb_true e He). reflexivity.
+  Qed.
+
+  (* C04 (cyclic), completeness: the walks with their weights satisfy the LP *)
   Theorem kfdc_complete : sat asg (encode_kfdc I).
   Proof.
-    unfold sat, encode_kfdc. cbn [cols rows]. fold WI. split.
-    - unfold base_wcols. repeat rewrite Forall_app. repeat split; [apply walk_cols_sat|apply sub_cols_sat|apply kfdc_cols_sat_c].
-    - unfold base_wrows. repeat rewrite Forall_app. repeat split;
-        [apply walk_rows_sat|apply zero_rows_sat|apply fix_rows_sat|apply sub_rows_sat|apply kfdc_rows_sat_c].
+    destruct kfdc_base_sat as [Bc Br]. unfold sat, encode_kfdc. cbn [cols rows]. fold WI. split.
+    - rewrite Forall_app. split; [exact Bc|apply kfdc_cols_sat_c].
+    - rewrite Forall_app. split; [exact Br|apply kfdc_rows_sat_c].
   Qed.
 End Complete.
